@@ -597,3 +597,27 @@ def run(cx):
             and term_has_call(msg, ("Option::cloned", "Option::map", "Clone::clone"))
         ob.require(part(f.get("status", ("u",)), "status") and part(f.get("headers", ("u",)), "headers") and okm, "status-from-response/fields",
                    f"from_response builds {show(t)[:200]}", fb.path)
+
+    with cx.ob("C17.8", "R-CALLERS", "the built-in payload decoders are total: closed world of callees (slice-based deserialisers only - no reader-based bincode, which allocates the announced length before checking it)") as ob:
+        ALLOWED = ("serde_json::de::from_slice", "serde_json::de::from_str", "bincode::deserialize", "serde_json::ser::to_vec", "bincode::serialize",
+                   "core::ops::deref::Deref::deref", "core::ops::try_trait::Try::branch", "core::ops::try_trait::FromResidual::from_residual",
+                   "core::convert::Into::into", "core::convert::From::from", "core::convert::AsRef::as_ref", "core::result::Result::map_err", "core::result::Result::map",
+                   "bytes::bytes::Bytes::from", "bytes::bytes::Bytes::as_ref", "core::clone::Clone::clone", "core::default::Default::default")
+        n = 0
+        decs = [b for p, b in prog.bodies.items() if b.crate == "anemo" and "rpc::codec" in p and b.kind == "AssocFn" and p.split("::")[-1] in ("decode", "encode")]
+        ob.floor(decs, 6, "encode/decode bodies of the built-in codecs")
+        for b in decs:
+            for c, chain in call_sites_through(prog, b, lambda c_: True, depth=3):
+                callee = c.fn or c.callee or ""
+                if callee in prog.bodies or (c.res and c.res in prog.bodies):
+                    continue                # a local helper: its own calls are visited through the chain
+                n += 1
+                if b.path.endswith("::encode"):
+                    if name_matches(callee, ALLOWED + ("bytes::bytes_mut::BytesMut::new", "bytes::bytes_mut::BytesMut::with_capacity", "bytes::buf::buf_mut::BufMut::writer",
+                                                       "bytes::bytes_mut::BytesMut::freeze", "bincode::serialize_into", "serde_json::ser::to_writer", "bytes::buf::writer::Writer::into_inner",
+                                                       "core::ops::deref::DerefMut::deref_mut", "core::ops::function::FnOnce::call_once", "alloc::vec::Vec::new", "alloc::vec::Vec::with_capacity")):
+                        continue
+                ob.require(name_matches(callee, ALLOWED), f"codec-callee/{owner_path(prog, b).split('::')[-3] if '::' in owner_path(prog, b) else '?'}/{callee.split('::')[-1]}",
+                           f"{b.path} calls {callee}: not one of the slice-based (bounded) (de)serialisers - a reader-based decoder can panic or over-allocate on a hostile length prefix",
+                           chain[-1], prog.bodies[chain[-1]].loc(c.bb) if chain[-1] in prog.bodies else None)
+        ob.floor(n, 8, "calls inspected")
